@@ -3,11 +3,25 @@
 # wheelhouse + the repository's own site-packages through a .pth file).  Idempotent.
 set -e
 cd "$(dirname "$0")"
+build_native() {
+  # optional speed-up (see native/arena_cache.c); the checks work without it
+  if [ ! -f .venv/arena_cache.so ] || [ native/arena_cache.c -nt .venv/arena_cache.so ]; then
+    inc=$(.venv/bin/python -c "import sysconfig;print(sysconfig.get_paths()['include'])" 2>/dev/null) || return 0
+    for cc in gcc cc clang clang-14; do
+      if command -v $cc >/dev/null 2>&1; then
+        $cc -O2 -shared -fPIC -I"$inc" native/arena_cache.c -o .venv/arena_cache.so 2>/dev/null && return 0
+      fi
+    done
+  fi
+  return 0
+}
 if [ -x .venv/bin/python ] && .venv/bin/python -c "import z3, jsonschema, yaml" 2>/dev/null; then
+  build_native
   exit 0
 fi
 rm -rf .venv
 /root/.pyenv/versions/3.12.1/bin/python -m venv .venv
 PIP_NO_INDEX=1 .venv/bin/pip install -q --no-index --find-links /opt/veriftools/wheels z3-solver cvc5 jsonschema
 echo "import site; site.addsitedir('/venv/lib/python3.12/site-packages')" > .venv/lib/python3.12/site-packages/_repo_deps.pth
+build_native
 .venv/bin/python -c "import z3, jsonschema, yaml; print('pyvc venv ready, z3', z3.get_version_string())"
